@@ -128,7 +128,13 @@ pub fn run(ctx: &Ctx) -> i32 {
                 gcfg.lit_num = 1;
             }
             let size = tree_size(rng);
-            let tree = gen_tree(rng, &table, size, &gcfg);
+            let tree = if rng.chance(1, 10) {
+                st.bump("trees_long_single_level_chain");
+                let n = rng.range(15, 130);
+                gen_chain_tree(rng, &table, n, &gcfg)
+            } else {
+                gen_tree(rng, &table, size, &gcfg)
+            };
             st.bump("trees");
             features(&tree, &table, st);
             st.class(tree.shape_key(&table));
